@@ -78,7 +78,8 @@ def check_deserialization(file_path: str, state_manager: ComplianceToolStateMana
         reader.read_into(obj_store, files)
         new_cp = reader.get_core_properties()
         state_manager.set_step_status(Status.SUCCESS)
-    except (ValueError, KeyError) as error:
+    except (ValueError, KeyError, etree.XMLSyntaxError) as error:
+        # (a part of the package may be missing or not be well-formed XML)
         logger.error(error)
         state_manager.set_step_status(Status.FAILED)
         return model.DictObjectStore(), aasx.DictSupplementaryFileContainer(), pyecma376_2.OPCCoreProperties()
@@ -144,7 +145,8 @@ def check_schema(file_path: str, state_manager: ComplianceToolStateManager) -> N
                 else:
                     raise ValueError("Could not determine part format of AASX part {} (Content Type: {}, extension: {}"
                                      .format(aas_part, content_type, extension))
-    except ValueError as error:
+    except (ValueError, KeyError, etree.XMLSyntaxError) as error:
+        # (a part of the package may be missing or not be well-formed XML)
         logger.error(error)
         state_manager.set_step_status(Status.FAILED)
     finally:
